@@ -250,7 +250,26 @@ def _case(i):
     rng = C.rng_for(seed, PID, tier, i)
     res = {'i': i, 'items': [], 'hist': {}, 'status': 'ok'}
     deep = rng.random() < 0.25
-    if deep:
+    replay = (not deep) and (i % 6 == 1)
+    if replay:
+        # return-rich programs (♡ before any jump, ♡ between two different jump sites, ♡ to the same command, the first
+        # command as a jump source) walked forward past later jumps, back to before the ♡, and forward again
+        r = rng.random()
+        if r < 0.25:
+            name, prog = 'replay:two_returns', gen.tmpl_two_returns(rng)
+        elif r < 0.4:
+            name, prog = 'replay:self_return', gen.tmpl_self_return(rng, with_read=False)
+        elif r < 0.55:
+            name, prog = 'replay:first_command_source', gen.tmpl_first_command_source(rng)
+        elif r < 0.7:
+            name, prog = 'replay:heart_return', gen.tmpl_heart_return(rng)
+        else:
+            early = [(0, 1, rng.randint(0, 3), rng.choice([13, ('?', 13, None), ('?', None, 13)]))]
+            name, prog = 'replay:early_heart', ([(0, 1, rng.randint(0, 3), None)] * rng.randint(0, 2) + early
+                                                + gen.tmpl_countdown(rng, iters=rng.choice([1, 2, 3, 4]))
+                                                + [(0, 1, rng.choice([0, 1, 2]), rng.choice([13, ('?', 13, None), ('!', 13, 13)]))] * rng.randint(0, 1)
+                                                + gen.print_chars([rng.choice([65, 66])], 3, 1))
+    elif deep:
         # a loop followed by a two-command tail: a breakpoint on the tail makes `run` execute the whole loop
         name, prog = 'tmpl:countdown(deep)', gen.tmpl_countdown(rng, iters=rng.choice([5, 10, 17, 20, 30, 40, 60, 100, 150]))
         prog = prog + [(0, 1, 65, None), (1, 1, rng.choice([1, 2]), None)]
@@ -270,6 +289,16 @@ def _case(i):
         return res
     parsed = refparse.parse(text)
     script = gen_script(rng, len(prog), deep)
+    if replay:
+        total = m.steps
+        script = []
+        for _ in range(rng.randint(1, 3)):
+            a = rng.randint(1, total + 2)
+            b = max(1, a - rng.choice([0, 0, 0, 1, 2, 3, rng.randint(0, a - 1), rng.randint(0, a - 1)]))     # mostly far back: to before the first ♡
+            script += ['n'] * a + (['s'] if rng.random() < 0.3 else []) + ['p'] * b + (['s'] if rng.random() < 0.5 else [])
+            script += ['n'] * rng.randint(1, b + 3) + ['s']
+        if len(script) > 900:
+            script = script[:900] + ['s']
     fname = rng.choice(['d%d_%d.hyeong', 'd%d_%d.hyeong', 'd %d:%d.hyeong', '디버그%d_%d.hyeong']) % (os.getpid(), i)
     path = P.write_program(rundir, fname, text)
     res['key'] = C.sha(text + '\0' + '\n'.join(script))
@@ -284,6 +313,10 @@ def _case(i):
         last_eol = '' if (script and script[-1].strip() and rng.random() < 0.2) else eol
         p = C.run_proc([C.HYEONG, 'debug', '--color', 'never', path], (eol.join(script) + last_eol).encode() if script else b'', cpu=20)
         res['hist'] = stats
+        if replay:
+            stats['replay_sessions'] = 1
+            if m.st['heart_returns'] or name == 'replay:early_heart':
+                stats['replay_sessions_with_heart_return'] = 1
         info = {'program': text, 'script': script, 'source': name,
                 'replay': "printf '%%s\\n' <script lines> | %s debug --color never FILE" % C.HYEONG}
         if p.wall_timeout or p.cpu_killed:
@@ -379,7 +412,7 @@ def main(tier, seed):
     assumptions = ['debugger chatter wording is not compared; only semantic events, exit status and absence of crash',
                    'the model ignores `break N` for N >= program length (it must merely not crash)',
                    'programs are input-free and their output avoids newline, [ and > so that transcripts split unambiguously']
-    minimum = {'sessions': (ev, 250), 'previous': (hist.get('previous', 0), 300), 'run': (hist.get('run', 0), 200),
+    minimum = {'sessions': (ev, 250), 'replay sessions over programs with a ♡ return': (hist.get('replay_sessions_with_heart_return', 0), 40), 'previous': (hist.get('previous', 0), 300), 'run': (hist.get('run', 0), 200),
                'state dumps': (hist.get('state', 0), 500), 'breakpoints beyond length': (hist.get('break_beyond_len', 0), 50),
                'run stopped by breakpoint': (hist.get('run_stop_breakpoint', 0), 30),
                'sessions with >= 64 consecutive back-steps': (hist.get('sessions_with_back_chain>=64', 0), 10),
